@@ -102,14 +102,15 @@ theorem C10_stored_fallback (pick : Pick) (text : List UInt8) (stored : Option (
   unfold mapSelf
   split <;> rfl
 
-/-- **A stored index of another file is ignored** (fix 3f61c23c). If the stored bytes parse but the MODULE
-line they carry (first line of the module-info block) is empty or is not the beginning of the `.sym` text —
-another debug id, another name, another letter case, one byte more or less, anything — the map is exactly
-the self-indexing map: a stale or foreign `.symindex` cannot influence any lookup. Holds for ALL byte
-strings `b` and texts. -/
+/-- **A stored index of another file is ignored** (fixes 3f61c23c + d2664d76). If the stored bytes parse but
+the MODULE line they carry (first line of the module-info block) is empty, or is not the beginning of the
+`.sym` text — another debug id, another name, another letter case, one byte more, anything —, or the debug
+id the parsed index reports (taken from the LAST MODULE line of the block) is not the id that first line
+states, the map is exactly the self-indexing map: a stale, foreign or doctored `.symindex` cannot influence
+any lookup nor the reported debug id. Holds for ALL byte strings `b` and texts. -/
 theorem C10_foreign_stored_ignored (pick : Pick) (text b : List UInt8) (ix : Index)
     (hp : parseSymindex b = some ix)
-    (hm : ¬ (storedModuleLine ix ≠ [] ∧ storedModuleLine ix <+: text)) :
+    (hm : ¬ (storedModuleLine ix ≠ [] ∧ storedModuleLine ix <+: text ∧ storedIdAgrees ix = true)) :
     mapStored pick text (some b) = mapSelf pick text := by
   apply mapStored_mismatch pick text b ix hp
   cases h : storedMatches text ix with
@@ -117,20 +118,22 @@ theorem C10_foreign_stored_ignored (pick : Pick) (text b : List UInt8) (ix : Ind
   | true => exact absurd ((storedMatches_iff text ix).1 h) hm
 
 /-- … and the complete description of `make_index_storage`: the stored index is used if and only if it
-parses and its non-empty MODULE line is the beginning of the text; in every other case (absent, unparsable,
-truncated, foreign) the map is the self-indexing one. -/
+parses, its non-empty MODULE line is the beginning of the text and the id it reports is the id of that line;
+in every other case (absent, unparsable, truncated, foreign, second MODULE line with another id) the map
+is the self-indexing one. -/
 theorem C10_stored_used_iff (pick : Pick) (text : List UInt8) (stored : Option (List UInt8))
     (hb : (tag tMODULE_ text).isSome = true) :
     (∀ ix, stored.bind parseSymindex = some ix → storedModuleLine ix ≠ [] → storedModuleLine ix <+: text →
-        mapStored pick text stored = .ok ix) ∧
-    ((∀ ix, stored.bind parseSymindex = some ix → ¬ (storedModuleLine ix ≠ [] ∧ storedModuleLine ix <+: text)) →
+        storedIdAgrees ix = true → mapStored pick text stored = .ok ix) ∧
+    ((∀ ix, stored.bind parseSymindex = some ix →
+        ¬ (storedModuleLine ix ≠ [] ∧ storedModuleLine ix <+: text ∧ storedIdAgrees ix = true)) →
         mapStored pick text stored = mapSelf pick text) := by
   have hn : (tag tMODULE_ text).isNone = false := by
     cases h : tag tMODULE_ text <;> simp_all
   refine ⟨?_, ?_⟩
-  · intro ix hp h1 h2
+  · intro ix hp h1 h2 h3
     unfold mapStored
-    simp [hn, hp, (storedMatches_iff text ix).2 ⟨h1, h2⟩]
+    simp [hn, hp, (storedMatches_iff text ix).2 ⟨h1, h2, h3⟩]
   · intro h
     cases hp : stored.bind parseSymindex with
     | none => exact C10_stored_fallback pick text stored hp
@@ -142,20 +145,53 @@ theorem C10_stored_used_iff (pick : Pick) (text : List UInt8) (stored : Option (
       unfold mapStored
       simp [hn, hp, hm]
 
-/-- The self-indexing map is a function of the whole text (its 1 MiB reads are one particular chunking),
-and it never hits the `unwrap` of `make_symbol_map` for a text shorter than 2^64 bytes. -/
-theorem C10_self_map_no_unwrap_panic (pick : Pick) (text : List UInt8) (hlen : text.length < pow64)
-    (h : mapSelf pick text = .panic) : index pick [text] = .panic := by
-  rw [mapSelf_eq] at h
-  split at h
-  · cases h
-  · cases hi : index pick [text] with
-    | panic => rfl
-    | err => simp [hi] at h
-    | ok bytes =>
-      simp only [hi] at h
-      obtain ⟨ix, hp, _⟩ := C10_creator_roundtrip pick [text] bytes (by simpa using hlen) hi
-      simp [hp] at h
+/-- **Whenever a stored index is used, the debug id the map reports is the id stated at the beginning of the
+text** (fix d2664d76): the stored first line `m` is a non-empty prefix of the text without `\n`, it parses as
+a MODULE record, and the id of the parsed index (`index.debug_id`, from the LAST MODULE line of the block)
+is the `DebugId` of `m`'s id token. -/
+theorem C10_stored_used_reports_own_id (pick : Pick) (text : List UInt8) (stored : Option (List UInt8))
+    (ix : Index) (hb : (tag tMODULE_ text).isSome = true) (hp : stored.bind parseSymindex = some ix)
+    (hu : mapStored pick text stored = .ok ix) (hself : mapSelf pick text ≠ .ok ix) :
+    storedModuleLine ix ≠ [] ∧ storedModuleLine ix <+: text ∧ (10 : UInt8) ∉ storedModuleLine ix ∧
+    ∃ v, indexDebugId ix = some v ∧ debugIdOfModuleLine (storedModuleLine ix) = some v := by
+  have hn : (tag tMODULE_ text).isNone = false := by
+    cases h : tag tMODULE_ text <;> simp_all
+  have hm : storedMatches text ix = true := by
+    cases h : storedMatches text ix with
+    | true => rfl
+    | false =>
+      exfalso
+      unfold mapStored at hu
+      simp only [hn, Bool.false_eq_true, if_false, hp, h] at hu
+      exact hself hu
+  obtain ⟨h1, h2, h3⟩ := (storedMatches_iff text ix).1 hm
+  obtain ⟨v, hv1, hv2⟩ := (storedIdAgrees_iff ix).1 h3
+  refine ⟨h1, h2, ?_, v, hv2, hv1⟩
+  unfold storedModuleLine
+  intro hmem
+  have := mem_takeWhile_true _ _ _ hmem
+  simp at this
+
+/-- Every index the creator writes (any text below 2^64 bytes, any chunking) reports the id of the first line
+of its module-info block, and that line parses as a MODULE record — so the new test never rejects an index
+because of its id, and `C10_stored_eq_self_built` is not vacuous on that account. -/
+theorem C10_creator_index_id_agrees (pick : Pick) (chunks : List (List UInt8)) (bytes : List UInt8)
+    (hlen : chunks.flatten.length < pow64) (h : index pick chunks = .ok bytes) :
+    ∃ ix, parseSymindex bytes = some ix ∧ storedIdAgrees ix = true ∧
+      (moduleLine (storedModuleLine ix)).isSome = true := by
+  obtain ⟨st, hc, _, he⟩ := index_spec pick chunks
+  rw [he] at h
+  cases hm : st.hasModule with
+  | false => simp [hm] at h
+  | true =>
+    simp only [hm, if_true] at h
+    by_cases hs : serializeSafe (st.toIndex pick) = true
+    · simp only [hs, if_true, Outcome.ok.injEq] at h
+      subst h
+      have hok := toIndex_ok pick st _ hc hlen hm
+      have hsh : ModShape (st.toIndex pick).moduleInfo := hc.module hm
+      exact ⟨_, parse_serialize _ hok hs, storedIdAgrees_of_shape _ hsh⟩
+    · simp [hs] at h
 
 /-- **A half-written `.symindex` is never accepted.** Every proper prefix of a serialized index (any index
 `serialize_to_bytes` can write without panicking) is rejected by `parse_symindex_file`: the last table ends
@@ -246,7 +282,7 @@ theorem C10_own_index_accepted (s : SymFile) (h : WFIndex s) :
 this `.sym` file) is left alone on disk and ignored by the map (fix 3f61c23c). -/
 theorem C10_wholesym_local_stale_foreign_ignored (pick : Pick) (lens : List Nat) (text b : List UInt8)
     (ix : Index) (hp : parseSymindex b = some ix)
-    (hm : ¬ (storedModuleLine ix ≠ [] ∧ storedModuleLine ix <+: text)) :
+    (hm : ¬ (storedModuleLine ix ≠ [] ∧ storedModuleLine ix <+: text ∧ storedIdAgrees ix = true)) :
     wsLocalMap pick lens text (some b) = (mapSelf pick text, .file b) := by
   unfold wsLocalMap
   by_cases ht : (tag tMODULE_ text).isNone = true
@@ -308,6 +344,52 @@ theorem C10_legacy_counterexample_stale_symindex :
     · unfold lookup
       simp only [hsingle]
       decide
+
+/-- a doctored index for `C10_staleText`: the module-info block is the text's own MODULE line followed by a
+second MODULE line with another debug id (`…89ac`); the tables are the right ones -/
+def C10_twoModuleIndex : Index :=
+  ⟨[77, 79, 68, 85, 76, 69, 32, 97, 32, 98, 32, 48, 49, 50, 51, 52, 53, 54, 55, 56, 57, 97, 98, 32, 99, 10, 77, 79, 68, 85, 76, 69, 32, 97, 32, 98, 32, 48, 49, 50, 51, 52, 53, 54, 55, 56, 57, 97, 99, 32, 99],
+   [], [], [4096], [⟨0, 17, 26⟩]⟩
+
+set_option maxRecDepth 8192 in
+/-- **Witness against the first-line-only rule of fix 3f61c23c** (`mapStoredFirstLineOnly`): the first stored
+line is the beginning of the text, so the doctored index was used — but `parse_symindex_file` takes the id
+from the LAST MODULE line, and the map reported build `0123456789ac` while serving the text of build
+`0123456789ab`. With fix d2664d76 (`mapStored`) the id test fails and the map is the self-indexing one. -/
+theorem C10_counterexample_two_module_lines :
+    mapStoredFirstLineOnly Pick.first C10_staleText (some (serialize C10_twoModuleIndex)) = .ok C10_twoModuleIndex ∧
+    indexDebugId C10_twoModuleIndex = some (debugIdValue [48, 49, 50, 51, 52, 53, 54, 55, 56, 57, 97, 99]) ∧
+    debugIdOfModuleLine (storedModuleLine C10_twoModuleIndex)
+      = some (debugIdValue [48, 49, 50, 51, 52, 53, 54, 55, 56, 57, 97, 98]) ∧
+    debugIdValue [48, 49, 50, 51, 52, 53, 54, 55, 56, 57, 97, 99] ≠ debugIdValue [48, 49, 50, 51, 52, 53, 54, 55, 56, 57, 97, 98] ∧
+    storedMatches C10_staleText C10_twoModuleIndex = false ∧
+    mapStored Pick.first C10_staleText (some (serialize C10_twoModuleIndex)) = mapSelf Pick.first C10_staleText := by
+  have hd : deriveModule C10_twoModuleIndex.moduleInfo
+      = some ⟨[97], [98], [48, 49, 50, 51, 52, 53, 54, 55, 56, 57, 97, 99], [99]⟩ := by
+    unfold deriveModule moduleInfoLines
+    rw [LB.consume_eq_bytewise _ _ LB.inv_init]
+    decide
+  have hok : Index.ok C10_twoModuleIndex :=
+    ⟨by simp [C10_twoModuleIndex], by simp [C10_twoModuleIndex], by simp [C10_twoModuleIndex, pow32],
+     by simp [C10_twoModuleIndex, SymEntry.ok, pow32, pow64], by rw [hd]; rfl⟩
+  have hp : parseSymindex (serialize C10_twoModuleIndex) = some C10_twoModuleIndex :=
+    parse_serialize _ hok (by decide)
+  have hid : indexDebugId C10_twoModuleIndex = some (debugIdValue [48, 49, 50, 51, 52, 53, 54, 55, 56, 57, 97, 99]) := by
+    unfold indexDebugId; rw [hd]; rfl
+  have hfirst : debugIdOfModuleLine (storedModuleLine C10_twoModuleIndex)
+      = some (debugIdValue [48, 49, 50, 51, 52, 53, 54, 55, 56, 57, 97, 98]) := by decide
+  have hne : debugIdValue [48, 49, 50, 51, 52, 53, 54, 55, 56, 57, 97, 99] ≠ debugIdValue [48, 49, 50, 51, 52, 53, 54, 55, 56, 57, 97, 98] := by
+    decide
+  have hm : storedMatches C10_staleText C10_twoModuleIndex = false := by
+    unfold storedMatches storedIdAgrees
+    rw [hid, hfirst]
+    have : (debugIdValue [48, 49, 50, 51, 52, 53, 54, 55, 56, 57, 97, 98] == debugIdValue [48, 49, 50, 51, 52, 53, 54, 55, 56, 57, 97, 99]) = false := by
+      decide
+    simp [this]
+  refine ⟨?_, hid, hfirst, hne, hm, mapStored_mismatch Pick.first C10_staleText _ _ hp hm⟩
+  unfold mapStoredFirstLineOnly
+  rw [show (some (serialize C10_twoModuleIndex)).bind parseSymindex = some C10_twoModuleIndex from hp]
+  decide
 
 /-- Before fix c4b9d51a an `INLINE_ORIGIN` record inside a FUNC block made the whole block unparseable
 (every lookup in that function returned nothing); the repaired parser skips it. -/
